@@ -15,7 +15,7 @@ PROPS = {
                 explanation="Rational::{floor,ceil,round}, builtin::{one,floor,ceil,round} against floor/ceil/half-away-from-zero definitions; FN_CALL arm bounded"),
     "C13": dict(units=["COMPOUND", "EVALOPS"], standin=True, level="proof",
                 explanation="field laws as lemmas over the proved postconditions of eval::{add,sub,mul,div}"),
-    "C12": dict(units=["LEXER", "PARSER", "GRAMMAR"], standin=True, level="proof",
+    "C12": dict(units=["LEXER", "PARSER", "GRAMMAR"], kani="leaves", standin=True, level="proof",
                 explanation="Lexer::next / next_escape / consume_* : progress, non-empty, contiguous, char-boundary, terminating for every string (Verus, against the str model); Parser methods keep leaves ++ buffer == lexer history; every grammar function terminates, never gets a builder error, and root()/parse_root attribute every lexed token to exactly one leaf; peek/peek2/step are trusted leaves (conformance-sampled)"),
     "C09": dict(units=["TABLES", "COMPOUND"], standin=True, level="proof",
                 explanation="CELSIUS offset constant and both FAHRENHEIT closures against the defining formulas (TABLES); apply_conversion Offset/Methods arms, check_offset, Compound::factor chain postcondition and offset guard, Compound::mul offset guard (COMPOUND); formulas, composition, inverse as lemmas over those contracts"),
